@@ -373,7 +373,11 @@ func certShape(c *refx509.Cert, kt *keyTable, world []*refx509.Cert) string {
 }
 
 // canonKey is the state key of Appendix B.
-func canonKey(s *hstate) string {
+func canonKey(s *hstate) string { return canonKeyOpt(s, true) }
+
+// canonKeyOpt with withRanks=false leaves the mtime order out (used to compare with a native
+// directory, whose timestamps of one run may tie).
+func canonKeyOpt(s *hstate, withRanks bool) string {
 	w := s.W
 	paths := w.Paths()
 	ranks := w.Ranks()
@@ -405,7 +409,11 @@ func canonKey(s *hstate) string {
 	dj, _ := json.Marshal(s.D)
 	b.Write(dj)
 	for _, p := range paths {
-		fmt.Fprintf(&b, "\n%s r%d ", p, ranks[p])
+		if withRanks {
+			fmt.Fprintf(&b, "\n%s r%d ", p, ranks[p])
+		} else {
+			fmt.Fprintf(&b, "\n%s ", p)
+		}
 		if a, ok := arts[p]; ok && a.Exists {
 			if a.Pem.HashLine != nil {
 				fmt.Fprintf(&b, "hash=%s ", *a.Pem.HashLine)
@@ -590,6 +598,10 @@ func stripSPKI(s string) string {
 
 // ---------------------------------------------------------------- search
 
+var c12RunCount int
+
+const c12CLIEvery = 40
+
 type c12Node struct {
 	s     *hstate
 	trace []int
@@ -626,6 +638,22 @@ func c12Step(x *engine.Ctx, n *c12Node, opIdx int, allowAdd bool, replay *c12Cas
 	if !res.OK() {
 		x.Outcome("run failed")
 		return child
+	}
+	// binding to the shipped binary: every c12CLIEvery-th successful run transition is replayed on the
+	// built gopki binary in a native directory; the resulting directory must abstract to the same
+	// canonical state as the in-memory successor
+	c12RunCount++
+	if (x.Replay || c12RunCount%c12CLIEvery == 0) && n.s.W.ClockMode == simfs.TickPerWrite {
+		cs := n.s.clone()
+		cres, cerr := drive.RunCLI(cs.W, dbStrat(op.Strat), "y\n")
+		if cerr == nil {
+			x.TraceValidated(1)
+			if cres.Exit != 0 {
+				x.ViolationCase("C12/cli-binding/exit-status", fmt.Sprintf("library run succeeded, binary exit %d: %s\n  history: %s", cres.Exit, short(cres.Stdout, 300), strings.Join(child.names, " ; ")), &rp)
+			} else if canonKeyOpt(cs, false) != canonKeyOpt(ns, false) {
+				x.ViolationCase("C12/cli-binding/state-differs", fmt.Sprintf("binary and library runs lead to different abstract states\n  history: %s\n  lib: %s\n  cli: %s", strings.Join(child.names, " ; "), short(canonKeyOpt(ns, false), 1500), short(canonKeyOpt(cs, false), 1500)), &rp)
+			}
+		}
 	}
 	if op.Strat == 9 {
 		x.Outcome("default run ok")
@@ -730,9 +758,7 @@ func init() {
 		NewCase:     func() any { return &c12Case{} },
 		Exec:        c12Exec,
 		Finish: func(ev map[string]any) {
-			if t, ok := ev["transitions"]; ok {
-				ev["traces_validated_against_impl"] = t
-			}
+			ev["traces_note"] = "every transition executes the real implementation on simfs; traces_validated_against_impl counts the successful run transitions additionally replayed on the built CLI binary (every 40th per worker) and compared on the canonical state"
 		},
 	})
 }
